@@ -15,7 +15,7 @@ LEVEL_TEXT = ('Bounded symbolic verification on the real BGPPeering/BGP objects:
               'version=4, effective AS = configured remote AS, hold not 1 or 2, with hold = min; (3) AS numbers of a later UPDATE '
               'are read as 4-octet iff both sides advertised capability 65 in this session.')
 LEVEL_NOTE = 'Twisted as modelled; configured times are read by FSM.__init__ (symbolic values are placed there, oslo.config would coerce them).'
-LEVEL_ADDED = 'Also: acceptance with the peer identifier of an earlier session still remembered (same / different).'
+LEVEL_ADDED = 'Also: acceptance with the peer identifier of an earlier session still remembered (same / different). AGGREGATOR of both AS widths in the 4-octet-mode obligations.'
 TECHNIQUE = 'symbolic execution of send_open/_open_received/negotiate_hold_time over two consecutive sessions (CrossHair+z3) with an independent OPEN reader'
 EXPLANATION = 'C05: OPEN content vs configuration across sessions; acceptance predicate; 4-octet-AS mode.'
 BOUNDS = 'local AS 1..2^32-1, hold 0|3..65535, id 1..2^32-1 symbolic; capability subsets enumerated; one earlier session (symbolic proposed hold, enumerated peer capability sets and outcomes)'
@@ -272,7 +272,21 @@ def ob_as4_mode(a1: int, a2: int) -> bool:
     cover('update')
     if len(log) != 1 or log[0][0] != 'update_received':
         return False
-    return log[0][1]['attr'].get(2) == [(2, [a1, a2])] and w.state == S.ESTABLISHED
+    if not (log[0][1]['attr'].get(2) == [(2, [a1, a2])] and w.state == S.ESTABLISHED):
+        return False
+    # the same for AGGREGATOR: its AS field has the width of the session's mode; the other width is a length error
+    agg_ok = (struct.pack('!I', a1) if both else struct.pack('!H', a1)) + bytes([10, 0, 0, 9])
+    agg_other = (struct.pack('!H', a1 % 65536) if both else struct.pack('!I', a1)) + bytes([10, 0, 0, 9])
+    for agg, good in ((agg_ok, True), (agg_other, False)):
+        a_ = attrs + bytes([0xc0, 7, len(agg)]) + agg
+        mark = w.mark()
+        w.ev_data(S.frame(2, struct.pack('!H', 0) + struct.pack('!H', len(a_)) + a_ + bytes([8, 10])))
+        log = w.handler.log[mark['hlog']:]
+        if len(log) != 1 or log[0][0] != ('update_received' if good else 'on_update_error'):
+            return False
+        if good and log[0][1]['attr'].get(7) != (a1, '10.0.0.9'):
+            return False
+    return w.state == S.ESTABLISHED
 
 
 def obligations(tier, seed):
